@@ -139,7 +139,7 @@ def _enum(tier):
 CLAUSES = [
     Clause('three-node-graphs', check_case, kind='exhaustive', enumerate=_enum,
            space='all 3-node graphs over 5 labelled node variants x all 2^9 edge sets, one attacker on all nodes (quick tier: every 4th graph)'),
-    Clause('random-labels', check_case, kind='random', strategy=cases, budget={'quick': 8000, 'thorough': 80000}),
-    Clause('analysed-graphs', check_case, kind='random', strategy=analysed_cases, budget={'quick': 4000, 'thorough': 30000}),
-    Clause('generated-graphs', check_case, kind='random', strategy=generated_cases, budget={'quick': 1500, 'thorough': 15000}),
+    Clause('random-labels', check_case, kind='random', strategy=cases, budget={'quick': 8000, 'thorough': 240000}),
+    Clause('analysed-graphs', check_case, kind='random', strategy=analysed_cases, budget={'quick': 4000, 'thorough': 90000}),
+    Clause('generated-graphs', check_case, kind='random', strategy=generated_cases, budget={'quick': 1500, 'thorough': 45000}),
 ]
